@@ -64,6 +64,9 @@ def build(tier):
     rot = seed() % 8
     RQ = ranges_quick(rot)
     RM = ranges_mid()
+    # thorough tier: every third range of the mid grid plus all quick ranges (the whole mid grid needs more than the
+    # 90 minutes one Kani run is allowed; measured ~2.8 s per harness on 16 cores)
+    RM = sorted(set(RM[::3]) | set(RQ))
     RF = ranges_full()
     fam = {}
 
@@ -186,6 +189,6 @@ ASSUMPTIONS = [
     "ownership shapes are built through the public API only (slice+keep parent, slice+drop parent, leaked 'static buffer, result of invert, result of append)",
     "Kani models Rc/Vec/Cow from the real std source; allocation never fails",
     "outside the claim: to_hex_string/from_hex_str (String/char machinery does not finish in CBMC even for one byte); append/insert on a borrowed 'static buffer whose only owner is the receiver (Cow::to_mut + Vec growth explodes in CBMC; after to_mut it is the UNIQUE shape, which is covered); for the same reason append of an unaligned tail / insert into an *empty* receiver that is shared (detach -> Bitstr::new())",
-    "quick tier is a covering sub-grid (every start alignment x every shape x every operation class), thorough tier the mid grid: every (start % 8, end % 8) pair with a multi-byte body and all short one-byte ranges, x all ownership shapes (the exhaustive (start, end) grid of 1- and 2-byte buffers was measured at over 3 h and is not run)",
+    "quick tier is a covering sub-grid (every start alignment x every shape x every operation class), thorough tier every third range of the mid grid (the (start % 8, end % 8) pairs with a multi-byte body and the short one-byte ranges) plus all quick ranges, x all ownership shapes (the whole mid grid did not finish in 90 min, the exhaustive (start, end) grid was measured at over 3 h; neither is run)",
 ]
 BOUNDS = "buffers<=3B, tails<=2B, unwind 50 with unwinding assertions; longer values outside the claim"
